@@ -22,6 +22,7 @@ type Exclusions struct {
 	ETXIneligibleDest      bool // ETX to a slice that is not eligible
 	LegacyWrapETX          bool // ETX fee operands that overflow 2^256 before the checked-arithmetic fork
 	LegacyWrapConvert      bool // same for CONVERT
+	ETXUnmeteredMem        bool // ETX whose data / access-list operands expand memory by more than a few KiB
 	OnExcluded             func(class string)
 }
 
@@ -38,6 +39,7 @@ type GenCfg struct {
 	// weights of block families
 	WNoise, WStorage, WMem, WCall, WCreate, WExport, WLockup, WSelfdestruct, WLoop, WTerminal int
 	WNest                                                                                     int    // percentage of blocks that are a plain call into another generated contract
+	BigMem                                                                                    bool   // every memory-touching opcode may draw the large boundary sizes (C15b)
 	MemCap                                                                                    uint64 // largest size operand of metered memory operations
 	Excl                                                                                      *Exclusions
 }
@@ -45,6 +47,11 @@ type GenCfg struct {
 // DefaultCfg is the C02 mix; ExportCfg is the C05 mix (biased to value-exporting operations).
 func DefaultCfg() GenCfg {
 	return GenCfg{MaxBlocks: 6, Depth: 2, WNoise: 3, WStorage: 3, WMem: 3, WCall: 8, WCreate: 3, WExport: 5, WLockup: 3, WSelfdestruct: 1, WLoop: 1, WTerminal: 1, WNest: 12, MemCap: 1 << 24}
+}
+
+// MemCfg is the C15(b) mix: memory-touching operations of every kind with sizes up to 2^24.
+func MemCfg() GenCfg {
+	return GenCfg{MaxBlocks: 6, Depth: 1, WNoise: 1, WStorage: 2, WMem: 14, WCall: 3, WCreate: 2, WExport: 3, WLockup: 1, WSelfdestruct: 0, WLoop: 1, WTerminal: 2, WNest: 8, MemCap: 1 << 24, BigMem: true}
 }
 func ExportCfg() GenCfg {
 	return GenCfg{MaxBlocks: 5, Depth: 2, WNoise: 1, WStorage: 1, WMem: 2, WCall: 5, WCreate: 2, WExport: 12, WLockup: 10, WSelfdestruct: 1, WLoop: 1, WTerminal: 1, WNest: 15, MemCap: 1 << 20}
@@ -122,7 +129,13 @@ var memSizes = []uint64{0, 1, 31, 32, 33, 1 << 10, 1 << 16, 1 << 20, 1 << 24}
 
 func (g *ProgGen) memSize(label string, cap uint64) uint64 {
 	// small sizes dominate; the large ones are drawn rarely because they mostly end in out-of-gas
-	i := g.weighted(label, 6, 4, 4, 6, 4, 4, 2, 1, 1)
+	i := 0
+	if g.Cfg.BigMem {
+		// C15b: mostly sizes that matter for metering
+		i = g.weighted(label, 2, 1, 1, 2, 1, 5, 6, 3, 1)
+	} else {
+		i = g.weighted(label, 6, 4, 4, 6, 4, 4, 2, 1, 1)
+	}
 	s := memSizes[i]
 	if s > cap {
 		s = cap
@@ -384,7 +397,7 @@ func (g *ProgGen) noise(a *Asm, h *Hints) {
 		a.Push(uint64(g.intn("n", 300))).Op(vm.BLOCKHASH, vm.POP)
 	case 6:
 		a.PushAddr(u.Contracts[g.intn("c", len(u.Contracts))])
-		a.Push(g.memSize("sz", 1<<16)).Push(0).Push(g.memOff("off")).Op(vm.DUP4, vm.EXTCODECOPY, vm.POP)
+		a.Push(g.memSize("sz", g.bigOr(1<<16))).Push(0).Push(g.memOff("off")).Op(vm.DUP4, vm.EXTCODECOPY, vm.POP)
 		// EXTCODECOPY pops addr, memOff, codeOff, size: stack built as size, codeOff, memOff, addr
 	default:
 		a.Push(uint64(g.intn("n", 64))).Op(vm.CALLDATALOAD, vm.POP)
@@ -409,15 +422,41 @@ func (g *ProgGen) storage(a *Asm) {
 		for i := 0; i < nt; i++ {
 			a.Push(uint64(0xA0 + i))
 		}
-		a.Push(g.memSize("lsz", 1<<10)).Push(g.memOff("loff"))
+		a.Push(g.memSize("lsz", g.bigOr(1<<10))).Push(g.memOff("loff"))
 		a.Op(vm.OpCode(int(vm.LOG0) + nt))
 	}
+}
+
+// bigOr returns the configured memory cap when every opcode may draw large sizes, else small.
+func (g *ProgGen) bigOr(small uint64) uint64 {
+	if g.Cfg.BigMem {
+		return g.Cfg.MemCap
+	}
+	return small
 }
 
 func (g *ProgGen) mem(a *Asm) {
 	g.kind("mem")
 	cap := g.Cfg.MemCap
-	switch g.intn("mem", 9) {
+	n := 9
+	if g.Cfg.BigMem {
+		n = 13
+	}
+	switch g.intn("mem", n) {
+	case 9: // CREATE reading a large (zero-filled) init code region
+		a.Push(g.memSize("s", cap)).Push(g.memOff("o")).Push(0).Op(vm.CREATE, vm.POP)
+	case 10: // CREATE2 likewise
+		a.Push(0).Push(g.memSize("s", cap)).Push(g.memOff("o")).Push(0).Op(vm.CREATE2, vm.POP)
+	case 11: // call-family opcodes with large argument / return regions to the identity precompile
+		ops := []vm.OpCode{vm.CALL, vm.CALLCODE, vm.DELEGATECALL, vm.STATICCALL}
+		op := ops[g.intn("mop", 4)]
+		a.Push(g.memSize("os", cap)).Push(g.memOff("oo")).Push(g.memSize("is", cap)).Push(g.memOff("io"))
+		if op == vm.CALL || op == vm.CALLCODE {
+			a.Push(0)
+		}
+		a.PushAddr(U().Precompiles[3]).Op(vm.GAS, op, vm.POP)
+	case 12:
+		a.Push(g.memSize("s", cap)).Push(g.memOff("o")).Op(vm.LOG0)
 	case 0:
 		a.PushBig(maxU256).Push(g.memOff("o")).Op(vm.MSTORE)
 	case 1:
@@ -431,7 +470,7 @@ func (g *ProgGen) mem(a *Asm) {
 	case 5:
 		a.Push(g.memSize("s", cap)).Push(uint64(g.intn("co", 40))).Push(g.memOff("dst")).Op(vm.CODECOPY)
 	case 6:
-		a.Push(g.memSize("s", 64)).Push(0).Push(g.memOff("dst")).Op(vm.RETURNDATACOPY)
+		a.Push(g.memSize("s", g.bigOr(64))).Push(0).Push(g.memOff("dst")).Op(vm.RETURNDATACOPY)
 	case 7:
 		a.Push(g.memSize("s", cap)).Push(g.memOff("o")).Op(vm.SHA3, vm.POP)
 	default:
@@ -488,8 +527,8 @@ func (g *ProgGen) call(a *Asm, h *Hints) {
 	op := ops[g.weighted("callop", 6, 2, 2, 2)]
 	t := g.callTarget("tgt", h)
 	g.kind(op.String() + ">" + t.name)
-	inSize, inOff := g.memSize("isz", 1<<16), g.memOff("ioff")
-	outSize, outOff := g.memSize("osz", 1<<10), g.memOff("ooff")
+	inSize, inOff := g.memSize("isz", g.bigOr(1<<16)), g.memOff("ioff")
+	outSize, outOff := g.memSize("osz", g.bigOr(1<<10)), g.memOff("ooff")
 	if g.flip("seedmem", 40) {
 		a.PushBig(maxU256).Push(inOff).Op(vm.MSTORE)
 	}
@@ -767,9 +806,15 @@ func (g *ProgGen) etx(a *Asm, h *Hints) {
 		}
 	}
 	al, aclass := g.accessListBlob("al")
+	// ETX memory expansion is not metered (C15): never more than 1 MiB, to protect the RAM
 	dataSize := g.memSize("dsz", 1<<20)
 	if dataSize > 1<<20 {
 		dataSize = 1 << 20
+	}
+	smallMem := g.Cfg.Excl != nil && g.Cfg.Excl.ETXUnmeteredMem
+	if smallMem && dataSize > 1<<10 {
+		g.Cfg.Excl.hit("etx-unmetered-mem")
+		dataSize = 1 << 10
 	}
 	alOff := []uint64{0x300, 0x300, 0, 0x1000}[g.intn("aloff", 4)]
 	dOff := []uint64{0, 0x20, 0x400}[g.intn("doff", 3)]
@@ -781,6 +826,9 @@ func (g *ProgGen) etx(a *Asm, h *Hints) {
 	alSize := uint64(len(al))
 	if aclass == "al-empty" && g.flip("alzero", 50) {
 		alOff = g.memOff("alo")
+		if smallMem && alOff > 0x1000 {
+			alOff = 0x1000
+		}
 	}
 	a.Push(alSize).Push(alOff).Push(dataSize).Push(dOff)
 	a.PushBig(cap_).PushBig(tip).PushBig(limit).PushBig(value).PushAddr(dest).Push(0)
@@ -880,10 +928,10 @@ func (g *ProgGen) terminal(a *Asm) {
 		a.Op(vm.STOP)
 	case 1:
 		g.kind("RETURN")
-		a.Push(g.memSize("rs", 1<<10)).Push(g.memOff("ro")).Op(vm.RETURN)
+		a.Push(g.memSize("rs", g.bigOr(1<<10))).Push(g.memOff("ro")).Op(vm.RETURN)
 	case 2:
 		g.kind("REVERT")
-		a.Push(g.memSize("rs", 1<<10)).Push(g.memOff("ro")).Op(vm.REVERT)
+		a.Push(g.memSize("rs", g.bigOr(1<<10))).Push(g.memOff("ro")).Op(vm.REVERT)
 	case 3:
 		g.kind("INVALID")
 		a.Op(vm.OpCode(0xfe))
